@@ -134,16 +134,65 @@ func typeTables() (string, error) {
 				return "", ierr
 			}
 		}
+		if !found {
+			// the same set kept in a package-level map that the function only looks up: `var x = map[..]..{..}`, `x[s]`
+			var names []string
+			ast.Inspect(fd, func(n ast.Node) bool {
+				if ix, ok := n.(*ast.IndexExpr); ok {
+					if id, ok := ix.X.(*ast.Ident); ok {
+						names = append(names, id.Name)
+					}
+				}
+				return true
+			})
+			for _, d2 := range f.Decls {
+				gd, ok := d2.(*ast.GenDecl)
+				if !ok || gd.Tok != token.VAR {
+					continue
+				}
+				for _, sp := range gd.Specs {
+					vs, ok := sp.(*ast.ValueSpec)
+					if !ok || len(vs.Names) != 1 || len(vs.Values) != 1 {
+						continue
+					}
+					used := false
+					for _, nm := range names {
+						if nm == vs.Names[0].Name {
+							used = true
+						}
+					}
+					cl, ok := vs.Values[0].(*ast.CompositeLit)
+					if !used || !ok {
+						continue
+					}
+					if _, ok := cl.Type.(*ast.MapType); !ok {
+						continue
+					}
+					for _, e := range cl.Elts {
+						kv, ok := e.(*ast.KeyValueExpr)
+						if !ok {
+							return "", fmt.Errorf("IsValidType: element without key in %s", vs.Names[0].Name)
+						}
+						k, err := resolveStringExpr(kv.Key, byName)
+						if err != nil {
+							return "", err
+						}
+						validKeys = append(validKeys, k)
+					}
+					found = true
+				}
+			}
+		}
 	}
 	if !found {
-		return "", fmt.Errorf("IsValidType: neither a map literal nor a switch with clauses returning true found (function rewritten?)")
+		return "", fmt.Errorf("IsValidType: no map literal, no switch with clauses returning true and no package-level map it looks up (function rewritten?)")
 	}
 
 	var b strings.Builder
 	b.WriteString("From Coq Require Import String List NArith Bool.\nImport ListNotations.\nLocal Open Scope string_scope.\n\n")
 	b.WriteString("(* constants of type SchemaType declared in type.go (AST) *)\n")
 	fmt.Fprintf(&b, "Definition schema_types : list string := %s.\n\n", qlist(types))
-	b.WriteString("(* the names IsValidType lists: keys of its map literal, or expressions of its case clauses that return true (AST) *)\n")
+	b.WriteString("(* the names IsValidType lists: keys of its map literal (in the function or in a package-level map it looks up), or expressions of its case clauses that return true (AST) *)\n")
 	fmt.Fprintf(&b, "Definition valid_keys : list string := %s.\n\n", qlist(validKeys))
 
 	// evaluation of IsValidType on probes: the vocabulary and near misses
